@@ -169,16 +169,18 @@ def run(ctx):
     with open(path, "w") as fh:
         for r in recs:
             fh.write(json.dumps({k: r[k] for k in ("id", "src", "init", "steps")}) + "\n")
-    rj = ctx.tlc_ok("TraceCoord", JUDGE_CFG, what="validate %d recorded histories" % len(recs), env={"REC_FILE": path}, workers=8, count=False, timeout=3000)
+    rj = ctx.tlc_ok("TraceCoord", JUDGE_CFG, what="validate %d recorded histories step by step" % len(recs), env={"REC_FILE": path}, workers=8, count=False, timeout=3000)
     os.remove(path)
-    if rj.distinct < len(recs):
-        raise Machinery("judge visited %d states for %d records" % (rj.distinct, len(recs)))
-    verdicts, drift = {}, {}
+    verdicts, drift, seen = {}, {}, set()
     for p in rj.prints:
-        if isinstance(p, tuple) and p and p[0] == "V":
-            verdicts[p[1]] = sorted(p[2], key=str)
-        elif isinstance(p, tuple) and p and p[0] == "D":
-            drift[p[1]] = (p[2], sorted(p[3], key=str))
+        if isinstance(p, tuple) and len(p) == 4 and p[0] == "V":
+            seen.add(p[1])
+            if p[2]:
+                verdicts[p[1]] = sorted(p[2], key=str)
+            if p[3]:
+                drift[p[1]] = (p[3][0], sorted(p[3][1], key=str))
+    if seen != {r["id"] for r in recs}:
+        raise Machinery("the trace validator returned verdicts for %d of %d histories" % (len(seen), len(recs)))
     ctx.traces += len(recs)
 
     # 6. bookkeeping and verdicts
@@ -194,9 +196,11 @@ def run(ctx):
         raise Machinery("transition cover incomplete: %d of %d" % (len(covered), n_edges))
     reproduced = 0
     not_reproduced = []
-    for c in cases[:n_cex]:
+    for c, key in zip(cases[:n_cex], cex_keys):
+        # reproduced: the code went through exactly the stores TLC's counterexample goes through and,
+        # unless the state only breaks confluence, the validator rejects the trace at a predicted tag
         v = verdicts.get(c["id"], [])
-        if any(f[4] for f in v) and c["id"] not in drift:
+        if c["id"] not in drift and (key[1] == frozenset(["Confluence"]) or any(f[4] for f in v)):
             reproduced += 1
         else:
             not_reproduced.append(c["id"])
